@@ -178,6 +178,10 @@ pub fn case_paths(rd: &mut Rd) -> R<String> {
         s.clear();
         s.push_str(&summary);
         s.push_str(if d.is_some() { "module=run;" } else { "module=none;" });
+        if let Some(d) = &d {
+            // the module's own result and trace (destinations of its connections and requests)
+            s.push_str(&format!("d=[{d}];"));
+        }
         s.push_str(if e_ts.is_some() { "proto=run;" } else { "proto=none;" });
     });
     Ok(c)
